@@ -424,4 +424,197 @@ theorem binding_total (s : JS) (l : Label)
   obtain ⟨i, f, e, _, he, hg, hp⟩ := binding_panics_only_plain s l h
   exact RV.Props.Reconcile.reconcile_total _ (hok i e he hg) hp
 
+
+/-! ## 6. Every history (induction over the label list; any number of rollouts sharing one TrafficRouting) -/
+
+/-- an invariant of the transition system holds along every history -/
+theorem run_invariant (P : JS → Prop) (hstep : ∀ s l s', P s → step s l = some s' → P s') :
+    ∀ (ls : List Label) (s s' : JS), P s → run s ls = some s' → P s' := by
+  intro ls
+  induction ls with
+  | nil => intro s s' hp h; cases h; exact hp
+  | cons l ls ih =>
+    intro s s' hp h
+    unfold run at h
+    split at h
+    · cases h
+    · rename_i s1 h1
+      exact ih s1 s' (hstep s l s1 hp h1) h
+
+theorem othersKept_mem (i k : Nat) (pre post : Option TRO) (h : othersKept i pre post = true) (hk : k ≠ i)
+    (hm : k ∈ holdersOf pre) : k ∈ holdersOf post := by
+  cases pre with
+  | none => simp [holdersOf] at hm
+  | some t =>
+    cases post with
+    | none =>
+      simp only [othersKept, Bool.and_eq_true, List.all_eq_true, beq_iff_eq] at h
+      exact absurd (h.2 k hm) hk
+    | some t' =>
+      simp only [othersKept, Bool.and_eq_true, List.all_eq_true, Bool.or_eq_true, beq_iff_eq, List.contains_iff_mem] at h
+      rcases h.1.2 k hm with h1 | h1
+      · exact absurd h1 hk
+      · exact h1
+
+/-- a bound rollout that is rolling holds the TrafficRouting -/
+def BoundWhileRolling (s : JS) : Prop :=
+  ∀ (i : Nat) (e : Entry), s.ros[i]? = some e → e.bound = true → e.gone = false → rolling e.w.ro = true → i ∈ holdersOf s.tr
+
+theorem tickRo_rolling (ro : RolloutSM.Rollout) : rolling (tickRo ro) = rolling ro := rfl
+
+theorem bwr_of_same (s s' : JS) (h : BoundWhileRolling s) (hros : s'.ros = s.ros) (htr : holdersOf s'.tr = holdersOf s.tr) :
+    BoundWhileRolling s' := by
+  intro i e he hb hg hr
+  rw [htr]; rw [hros] at he; exact h i e he hb hg hr
+
+theorem bwr_step (s : JS) (l : Label) (s' : JS) (hinv : BoundWhileRolling s) (h : step s l = some s') : BoundWhileRolling s' := by
+  cases l with
+  | ro j f =>
+    cases he : s.ros[j]? with
+    | none => simp only [step, he] at h; cases h; exact hinv
+    | some e =>
+      cases hg : e.gone with
+      | true => simp only [step, he, hg, if_true] at h; cases h; exact hinv
+      | false =>
+        obtain ⟨r, tr', hr, hs'⟩ := step_ro s s' j f e he hg h
+        subst hs'
+        obtain ⟨_, a2⟩ := ro_tr_effect _ _ _ _ _ _ _ hr
+        intro k ek hek hb hng hroll
+        dsimp only at hek ⊢
+        by_cases hkj : k = j
+        · subst hkj
+          rw [get_set_self _ _ _ _ he] at hek
+          cases hek
+          have hng' : r.roGone = false := hng
+          rw [landEntry_ro e r hng'] at hroll
+          have hb' : e.bound = true := hb
+          rw [hb'] at hr
+          rcases rolling_after k _ _ _ _ _ hr hroll with ⟨h1, h2⟩ | h1
+          · rw [h2]; exact hinv k e he hb' hg h1
+          · exact h1
+        · rw [get_set_ne _ _ _ _ (fun h => hkj h.symm)] at hek
+          exact othersKept_mem j k _ _ a2 hkj (hinv k ek hek hb hng hroll)
+  | tr =>
+    have hk := tr_keeps_holders s s' h
+    cases htr : s.tr with
+    | none => rw [step_tr_none s htr] at h; cases h; exact hinv
+    | some t =>
+      rw [step_tr s t htr] at h; cases h
+      intro k ek hek hb hng hroll
+      have := hinv k ek hek hb hng hroll
+      rw [htr] at this
+      dsimp only
+      cases hst : stored (trCore t s.net s.mem).t with
+      | none =>
+        have h3 := (stored_none _ hst).2.2
+        rw [(core_frame t s.net s.mem).1] at h3
+        simp [holdersOf, h3] at this
+      | some t' =>
+        have := stored_some _ _ hst; subst this
+        simpa [holdersOf, (core_frame t s.net s.mem).1] using this
+  | tick =>
+    simp only [step] at h; cases h
+    intro k ek hek hb hng hroll
+    dsimp only at hek ⊢
+    rw [List.getElem?_map] at hek
+    cases hk : s.ros[k]? with
+    | none => rw [hk] at hek; cases hek
+    | some e0 =>
+      rw [hk] at hek
+      simp only [Option.map_some, Option.some.injEq] at hek
+      subst hek
+      exact hinv k e0 hk hb hng hroll
+  | crash => simp only [step] at h; cases h; exact bwr_of_same _ _ hinv rfl rfl
+  | deleteTR =>
+    simp only [step] at h; cases h
+    intro k ek hek hb hng hroll
+    have := hinv k ek hek hb hng hroll
+    dsimp only
+    cases htr : s.tr with
+    | none => rw [htr] at this; simp [holdersOf] at this
+    | some t =>
+      rw [htr] at this
+      simp only [Option.bind_some]
+      cases hst : stored { t with deleting := true } with
+      | none =>
+        have h3 := (stored_none _ hst).2.2
+        simp only at h3
+        simp [holdersOf, h3] at this
+      | some t' =>
+        have := stored_some _ _ hst; subst this
+        exact this
+  | createTR w g hr =>
+    simp only [step] at h
+    cases htr : s.tr with
+    | none =>
+      intro k ek hek hb hng hroll
+      rw [htr] at h; cases h
+      have := hinv k ek hek hb hng hroll
+      rw [htr] at this; simp [holdersOf] at this
+    | some t => rw [htr] at h; cases h; exact hinv
+  | editStrategy w =>
+    simp only [step] at h; cases h
+    refine bwr_of_same _ _ hinv rfl ?_
+    dsimp only
+    cases s.tr <;> rfl
+  | deleteRo j =>
+    simp only [step] at h
+    cases he : s.ros[j]? with
+    | none => rw [he] at h; cases h; exact hinv
+    | some e =>
+      rw [he] at h
+      dsimp only at h
+      split at h
+      · cases h; exact hinv
+      · split at h
+        all_goals
+          cases h
+          intro k ek hek hb hng hroll
+          unfold setEntry at hek ⊢
+          dsimp only at hek ⊢
+          by_cases hkj : k = j
+          · subst hkj
+            rw [get_set_self _ _ _ _ he] at hek
+            cases hek
+            first
+              | exact hinv k e he hb (by assumption) hroll
+              | cases hng
+          · rw [get_set_ne _ _ _ _ (fun h => hkj h.symm)] at hek
+            exact hinv k ek hek hb hng hroll
+  | perturb j w' =>
+    simp only [step] at h
+    cases he : s.ros[j]? with
+    | none => rw [he] at h; cases h; exact hinv
+    | some e =>
+      rw [he] at h
+      dsimp only at h
+      split at h
+      · rename_i hc
+        cases h
+        intro k ek hek hb hng hroll
+        unfold setEntry at hek ⊢
+        dsimp only at hek ⊢
+        by_cases hkj : k = j
+        · subst hkj
+          rw [get_set_self _ _ _ _ he] at hek
+          cases hek
+          have hsc := hc.2
+          unfold sameControl at hsc
+          simp only [Bool.and_eq_true, beq_iff_eq] at hsc
+          refine hinv k e he hb hng ?_
+          rw [← hroll]
+          exact rolling_congr _ _ hsc.1.1.1.1 hsc.1.1.1.2
+        · rw [get_set_ne _ _ _ _ (fun h => hkj h.symm)] at hek
+          exact hinv k ek hek hb hng hroll
+      · cases h; exact hinv
+  | envNet n => simp only [step] at h; cases h; exact bwr_of_same _ _ hinv rfl rfl
+
+/-- **2 (history form). `bound_while_rolling` (C03)** — along every history (reconciles of any rollout with or without
+    API faults on the binding calls, TrafficRouting reconciles, clock, crashes, deletion / creation / edits of the
+    TrafficRouting, deletion of rollouts, arbitrary foreign changes to workloads, BatchReleases, specs, sub-statuses and
+    network objects): every bound Rollout that is Progressing/InRolling (or Paused) has its finalizer on an existing
+    TrafficRouting.  Starting point: any state in which that holds, e.g. no rollout rolling. -/
+theorem bound_while_rolling (ls : List Label) (s s' : JS) (h0 : BoundWhileRolling s) (h : run s ls = some s') : BoundWhileRolling s' :=
+  run_invariant BoundWhileRolling bwr_step ls s s' h0 h
+
 end RV.Props.TRBind
